@@ -212,6 +212,10 @@ def render_flow(n, md_style=0, qs=0):
             return pre if tt else ''
         if 'x' in s:
             return pre + json.dumps(s['x'])
+        if 'p' in s:
+            # a PLAIN (unquoted) scalar written verbatim, so that PyYAML's implicit resolvers see it (an implicit f-string
+            # `f'{T(1)}'`). Block context only; outside the model's domain (oracle-only case families).
+            return pre + s['p']
         return pre + render_scalar_value(sc_py(s['l']), qs)
     if 'q' in n:
         return pre + '[' + ', '.join(render_flow(c, md_style, qs) or '~' for c in n['q']) + ']'
